@@ -525,3 +525,14 @@ def z10_unique_fields(ctx):
 
 
 RULES.append(('Z10', z10_unique_fields))
+
+
+def z11_lexical(ctx):
+    """Z11 a time followed by any configured zone is a time and a zone (E7b lexical competition model: month stage, regex families in TOKEN_REGEX_PARSER order with first-claim-wins,
+    alias stage; samples generated from the configuration)"""
+    from ..lexrules import run_samples, number_samples, based_samples, money_samples, unit_samples, month_samples, zone_samples, duration_samples, percent_samples, keyword_samples
+    ctx.rule('Z11', 'a time followed by any configured zone is a time and a zone', floor=150)
+    run_samples(ctx, 'Z11', zone_samples(ctx))
+
+
+RULES.append(('Z11', z11_lexical))
